@@ -11,6 +11,15 @@ namespace C19
 open Trk
 
 /-! ### ties to commands/command_track.go as it is in /repo now -/
+/-- only $GIT_DIR/info/attributes (`true`) and the file whose path from the work-tree root is exactly
+    `.gitattributes` contribute macro definitions (git/attribs.go findAttributeFiles) -/
+theorem gen_macro_definitions_top_level_only :
+    Gen.attrFileMacroConditions =
+      [[116, 114, 117, 101],   -- true
+       [102, 46, 70, 117, 108, 108, 80, 97, 116, 104, 32, 61, 61, 32, 34, 46, 103, 105, 116, 97, 116, 116, 114, 105, 98, 117, 116, 101, 115, 34]]
+        -- f.FullPath == ".gitattributes"
+      := by decide
+
 /-- exactly the four glob characters are backslash-escaped by `--filename` -/
 theorem gen_escape_strings : Gen.trackEscapeStrings = [[42], [91], [93], [63]] := by decide
 /-- blank ↦ [[:space:]] and `#` ↦ `\#` are the two pattern replacements -/
